@@ -154,6 +154,58 @@ PLANS["X02"] = dict(
     rule="one event = one MergeUpPartial input (4 repetitions) or one Set.Merge call", assumptions=[], trusted_base=["TLC 2026.09.04", "CommunityModules Json/IOUtils"],
 )
 
+# ---- X03: extended coverage -------------------------------------------------------------------------
+
+
+def run_x03(ctx):
+    ctx.mc("SimplifyMC", "SimplifyMC_quick.cfg", workers=8, note="the transcriptions satisfy the C12 relations on the bounded path set")
+    shards = ctx.gen("simplify")
+    ctx.validate("Simplify_Conf_Trace", shards)
+
+
+PLANS["X03"] = dict(
+    run=run_x03, signature=sig_default,
+    technique="trace validation of the real simplifiers against the implementation-shaped TLA+ transcriptions (DPImpl, RadialImpl, VisImplResults) that SimplifyMC model-checks",
+    level_text="extended coverage (no listed property): for every recorded simplifier call on a path of <= 9 vertices TLC requires the real output to equal the transcription's (Douglas-Peucker, radial) or to be one of the transcription's possible outputs (Visvalingam, ties free), binding the model-checked design to the code beyond the relations C12 states.",
+    level_note="paths on small integer grids with thresholds a/4: every distance comparison is exact in float64",
+    rule="one event = one simplifier call", assumptions=[], trusted_base=["TLC 2026.09.04", "CommunityModules Json/IOUtils"],
+)
+
+# ---- X04: extended coverage -------------------------------------------------------------------------
+
+
+def run_x04(ctx):
+    ctx.mc("ClipRingMC", "ClipRingMC_quick.cfg", note="the Sutherland-Hodgman transcription satisfies the C08 predicates")
+    shards = ctx.gen("clipring")
+    ctx.validate("ClipRing_Conf_Trace", shards)
+
+
+PLANS["X04"] = dict(
+    run=run_x04, signature=sig_default,
+    technique="trace validation of the real clip.Ring against the Sutherland-Hodgman TLA+ transcription (SHRing) that ClipRingMC model-checks",
+    level_text="extended coverage (no listed property): for every recorded single-ring clip TLC requires the real output to be exactly the vertex sequence of the transcription, binding the model-checked design to the code beyond the region predicate C08 states.",
+    level_note="lattice inputs: every intersection is exact",
+    rule="one event = one clip.Ring call", assumptions=[], trusted_base=["TLC 2026.09.04", "CommunityModules Json/IOUtils"],
+)
+
+# ---- X05: extended coverage -------------------------------------------------------------------------
+
+
+def run_x05(ctx):
+    cases = ctx.tlcgen("QuadtreeGen", "QuadtreeGen_%s.cfg" % ctx.tier)
+    shards = ctx.gen("qtreplay", cases=cases)
+    ctx.validate("Quadtree_Conf_Trace", shards)
+    ctx.exhaustive = True
+
+
+PLANS["X05"] = dict(
+    run=run_x05, signature=sig_default,
+    technique="replay of TLC-generated behaviours of the implementation-shaped quadtree spec into the real tree with the node tree compared after every action",
+    level_text="extended coverage (no listed property): every history of length 4 (quick) / 5 (thorough, every sixth) of add / remove-by-point / remove-by-identity over the 6-point alphabet is replayed into a real quadtree.Quadtree; after each operation the real node tree (path -> pointer, emptied nodes included, read through the VerifWalk hook) must be exactly the node tree QuadtreeImpl predicts and the result must be the predicted result. This binds the facts QuadtreeMC proves about the transcription to the code.",
+    level_note="the node tree is not fixed by any listed property (C11 speaks about query answers); a different but correct tree shape would be reported here and only here",
+    rule="one event = one operation of a replayed history", assumptions=[], trusted_base=["TLC 2026.09.04", "CommunityModules Json/IOUtils", "quadtree/verif_walk.go (build tag verif)"],
+)
+
 # ---- C11 -------------------------------------------------------------------------------------------
 
 
@@ -396,6 +448,10 @@ def run_c12(ctx):
            note="DP / radial / Visvalingam (every tie-break) transcriptions satisfy subsequence, endpoints, error bound, idempotence, spacing, counts, monotonicity")
     shards = ctx.gen("simplify")
     ctx.validate("Simplify_Trace", shards)
+    # polygons / multipolygons: every ring goes through the simplifier, collapsed holes / polygons are dropped (in-place
+    # compaction, the filter-map of MvtLayer.tla)
+    shards = ctx.gen("simppoly")
+    ctx.validate("MvtLayer_Trace", shards, stage="polygon-parts-filter-map")
     ctx.exhaustive = True
     ctx.notes.append("exhaustive part: every path of <=4 (quick) / <=5 (thorough) vertices on a 4x4 grid through all three simplifiers")
 
